@@ -435,6 +435,9 @@ func c15Sequences(c *Ctx) {
 		c15Line("crm.users", "email", "IXSCAN { acctNo: 1, email: -1 }", 2),
 		c15Line("shop.orders", "email", "COLLSCAN", 3),
 		c15Line("crm.orders", "other", "IXSCAN { other: 1 }", 4),
+		// lines that carry a command but no attr.ns (error reports): they belong to no chosen namespace
+		`{"t":{"$date":"2024-05-01T10:00:07.000+00:00"},"s":"W","c":"QUERY","id":25000,"ctx":"conn5","msg":"Aggregate command executor error","attr":{"error":{"code":292,"errmsg":"Sort exceeded memory limit"},"stats":{"stage":"SORT"},"cmd":{"aggregate":"orders","pipeline":[{"$match":{"acctNo":"v","email":{"$ne":null}}},{"$sort":{"acctNo":-1}},{"$group":{"_id":"$email","n":{"$sum":1}}}],"cursor":{},"$db":"shop"}}}`,
+		`{"t":{"$date":"2024-05-01T10:00:08.000+00:00"},"s":"I","c":"COMMAND","id":51803,"ctx":"conn6","msg":"Slow query","attr":{"type":"command","command":{"find":"users","filter":{"email":"v","acctNo":{"$gt":3}},"sort":{"email":1},"$db":"crm"},"planSummary":"IXSCAN { acctNo: 1, email: -1 }","durationMillis":3}}`,
 	}
 	dir := freshDir(c.Scratch, "c15seq")
 	for fi, fl := range []Flags{{F: []string{"shop"}}, {F: []string{"shop.orders", "crm.users"}, N: true}} {
@@ -459,6 +462,24 @@ func c15Sequences(c *Ctx) {
 				return
 			}
 			solo[i] = o[0]
+		}
+		// every environment variable the sources read (scraped from the code), other than the documented key pair and
+		// version override, set to the empty string / to a namespace: no line may come out differently
+		for _, name := range scrapeEnvNames(c.Src) {
+			for _, val := range []string{"", "crm", "shop.orders,"} {
+				os.WriteFile(filepath.Join(dir, "in.log"), []byte(strings.Join(alpha, "\n")+"\n"), 0o644)
+				res, err := runCLI(CLIRun{Bin: c.CLI, Args: append([]string{"redact", "in.log"}, fl.CLIArgs("")...), Dir: dir, Env: []string{name + "=" + val}})
+				c.Eval(1)
+				c.Count("cli_runs", 1)
+				c.Distinct(fmt.Sprintf("env|%d|%s=%s", fi, name, val))
+				if err != nil {
+					continue
+				}
+				if res.Exit != 0 || string(res.Stdout) != strings.Join(solo, "\n")+"\n" {
+					c.Violate("fieldnames:environment-variable-changes-the-output", fmt.Sprintf("flags [%s]: with %s=%q in the environment (a variable the sources read) the run exits %d and its output differs from the one-line runs without it", fl, name, val, res.Exit), int64(len(val)),
+						map[string]any{"kind": "c15-env", "variable": name, "value": val, "flags": fl.String()}, nil)
+				}
+			}
 		}
 		depth := 3
 		var seq []int
